@@ -16,15 +16,15 @@ import (
 
 // payload kinds of the alphabet
 const (
-	pEmpty = iota
-	pGood       // capability map with the accepted user/token
-	pBad        // capability map with a rejected token
-	pForgedU    // no credentials, __qi_auth_state = uint 3
-	pForgedI    // no credentials, __qi_auth_state = int 3
-	pUserInt    // auth_user is an int value, token good
-	pGarbage    // 10 garbage bytes
-	pArg        // an int32 argument (for echo)
-	pNoCreds    // well-formed map without credentials
+	pEmpty   = iota
+	pGood    // capability map with the accepted user/token
+	pBad     // capability map with a rejected token
+	pForgedU // no credentials, __qi_auth_state = uint 3
+	pForgedI // no credentials, __qi_auth_state = int 3
+	pUserInt // auth_user is an int value, token good
+	pGarbage // 10 garbage bytes
+	pArg     // an int32 argument (for echo)
+	pNoCreds // well-formed map without credentials
 	nPayload
 )
 
